@@ -1071,6 +1071,9 @@ func newCanon() *canonT { return &canonT{} }
 //go:norace
 func (c *canonT) canon(s string) string {
 	i := strings.Index(s, "_INBOX.")
+	if i < 0 {
+		i = randomToken(s)
+	}
 	if i < 0 || strings.HasPrefix(s[i:], "_INBOX.peer.") {
 		return s
 	}
@@ -1087,11 +1090,37 @@ func (c *canonT) canon(s string) string {
 	return s[:i] + "INBOX#" + strconv.Itoa(c.n)
 }
 
+// randomToken finds a subject that was made unique in another way than by
+// nats.NewInbox (a library that builds its query subjects differently is
+// still correct): the position of the first dot-separated token of 16 or
+// more letters and digits, or -1.
+//
+//go:norace
+func randomToken(s string) int {
+	start := 0
+	for i := 0; i <= len(s); i++ {
+		if i < len(s) {
+			ch := s[i]
+			if ch >= '0' && ch <= '9' || ch >= 'a' && ch <= 'z' || ch >= 'A' && ch <= 'Z' {
+				continue
+			}
+		}
+		if i-start >= 16 && (i == len(s) || s[i] == '.' || s[i] == ' ') && (start == 0 || s[start-1] == '.' || s[start-1] == ' ') {
+			return start
+		}
+		start = i + 1
+	}
+	return -1
+}
+
 // peek applies the names handed out so far and masks the others.
 //
 //go:norace
 func (c *canonT) peek(s string) string {
 	i := strings.Index(s, "_INBOX.")
+	if i < 0 {
+		i = randomToken(s)
+	}
 	if i < 0 || strings.HasPrefix(s[i:], "_INBOX.peer.") {
 		return s
 	}
